@@ -196,7 +196,19 @@ def run_case(case, ctx):
             elif sec == "extra":
                 xs.append("write-enabler %s" % b64(WE) if "write-enabler" not in needed else "upload-secret %s" % b64(b"x" * 20)); secrets_ok = False
             elif sec == "dup" and needed:
-                xs.append(xs[rq["which"] % len(xs)])          # same key twice with the same value: the set of keys is still right
+                # one kind of secret given twice: the same value again, or a wrong value before / after the right one.  More secrets than the
+                # endpoint asks for: refused, whatever their values
+                i = rq["which"] % len(xs)
+                k_, v_ = xs[i].split(" ", 1)
+                how = rq["arg"] % 3
+                if how == 0:
+                    xs.append(xs[i])
+                elif how == 1:
+                    xs.insert(i, k_ + " " + b64(b"\x07" * 32))
+                else:
+                    xs.append(k_ + " " + b64(b"\x07" * 32))
+                classes.add("secret-kind-twice:" + ("same", "wrong-first", "wrong-last")[how])
+                secrets_ok = False
             elif sec == "bad-b64" and needed:
                 i = rq["which"] % len(xs)
                 if rq["arg"] % 2:
